@@ -15,6 +15,7 @@ import c13_zoo as zoo
 MODEL_FILES = ['MaltModel/Rt/Policy.lean', 'MaltModel/Generated/Policy.lean', 'MaltModel/Proofs/C13.lean', 'MaltModel/Drv/C13.lean']
 CLS_FOREIGN_SELF = 'foreign_self_attribute'
 CLS_UNCACHEABLE = 'uncacheable_target'
+CLS_SHARED_OWNER = 'shared_function_owner_dependent_allowlist'
 
 
 class InjectedFault(Exception):
@@ -433,7 +434,7 @@ class Runner(object):
             d = zoo.desc_sexp(pf, in_cache=(fl == 'cached'))
             callable_sx = ['partial', d, [self.val(a) for a in lv.args], [[k, self.val(v)] for k, v in lv.keywords.items()], callable_sx]
         margs = [self.val(a) for a in args]
-        if b.needs_self is not None:
+        if b.needs_self is not None and margs:
             margs[0] = 'SELFARG'
         mkw = 'none' if kw is None else [[k, self.val(v)] for k, v in kw.items()]
         opts = self.options(c)
@@ -635,13 +636,18 @@ def _check(run, ins, tmp):
         cases = gen_cases(run, R, bases, rule_bases)
         # corpus first
         cdir = os.path.join(common.VERIF, 'corpus', 'C13')
-        corpus = []
+        corpus, hcorpus = [], []
         if os.path.isdir(cdir):
             for fn in sorted(os.listdir(cdir)):
                 if fn.endswith('.json'):
                     with open(os.path.join(cdir, fn)) as f:
-                        corpus.append(Case.from_json(json.load(f)['case']))
+                        cj = json.load(f)['case']
+                    if cj.get('history'):
+                        hcorpus.append(History.from_json(cj))
+                    else:
+                        corpus.append(Case.from_json(cj))
         _run_cases(run, R, corpus + cases)
+        _run_histories(run, R, hcorpus + gen_histories(run, bases + rule_bases))
         _specials(run, R)
     finally:
         env.close()
@@ -1132,6 +1138,235 @@ zoo.Built.base_kind_logs_once = _built_logs_once
 zoo.Built.base_logs_tag = _built_logs_tag
 
 
+# ------------------------------------------------------------------------------------------------ histories
+
+HIST_SINGLES = [('fn', 0), ('fn', 1), ('fn', 3), ('fn', 6), ('lambda', 0), ('bound', 0), ('bound', 3), ('classm', 0), ('callobj', 0),
+                ('class_meta', 0), ('dnc', 0), ('fn_mod:malt.c13fake', 0), ('genfn', 0), ('forelse', 0), ('forelse', 1), ('nosource', 0),
+                ('callobj_unhash_fail', 0), ('lru', 0), ('execfn', 0), ('builtin:len', 0), ('class_user', 0), ('bound_testcase', 0),
+                ('wrapt_fn', 0), ('bound_sub_inherit:malt.c13fake', 0)]
+# distinct callables sharing code / a cache key
+HIST_PAIRS = [('twins', ('fn', 0), ('fn', 0)), ('instances', ('bound', 0), ('bound', 0)), ('unbound_bound', ('unbound', 0), ('bound', 0)),
+              ('twin_lambdas', ('lambda', 0), ('lambda', 1)), ('mixin', ('mix_tc', 0), ('mix_plain', 0)),
+              ('failing_instances', ('callobj_forelse', 0), ('callobj_forelse', 0))]
+HIST_OPTS = [(False, True, True), (True, True, True), (False, False, False), (False, True, False)]   # (user_requested, internal_convert, recursive)
+
+
+class History(object):
+    """slots: [(base, chain_ix)]; calls: [(slot, status, (ur, icu, rec), shape_ix)]"""
+
+    def __init__(self, name, slots, calls):
+        self.name, self.slots, self.calls = name, [tuple(x) for x in slots], [(c[0], c[1], tuple(c[2]), c[3]) for c in calls]
+
+    def key(self):
+        return ('hist', self.name, tuple(self.slots), tuple(self.calls))
+
+    def to_json(self):
+        return {'history': True, 'name': self.name, 'slots': [list(x) for x in self.slots],
+                'calls': [[c[0], c[1], list(c[2]), c[3]] for c in self.calls]}
+
+    @staticmethod
+    def from_json(d):
+        return History(d['name'], d['slots'], d['calls'])
+
+
+def gen_histories(run, bases):
+    quick = run.tier == 'quick'
+    rng = run.rng
+    statuses = ['unspecified', 'enabled', 'disabled']
+    out = []
+    singles = [x for x in HIST_SINGLES if x[0] in bases or x[0].startswith('fn_mod:')]
+    patterns = [(HIST_OPTS[0], HIST_OPTS[0]), (HIST_OPTS[1], HIST_OPTS[0]), (HIST_OPTS[2], HIST_OPTS[0]), (HIST_OPTS[0], HIST_OPTS[1])]
+    n = run.seed
+    for s1 in statuses:
+        for s2 in statuses:
+            for pi, (o1, o2) in enumerate(patterns):
+                for sub in singles:
+                    n += 1
+                    if pi >= 2 and quick and n % 2:
+                        continue
+                    out.append(History('single', [sub], [(0, s1, o1, n % 5), (0, s2, o2, (n + 1) % 5)]))
+                for name, a, b in HIST_PAIRS:
+                    n += 1
+                    out.append(History(name, [a, b], [(0, s1, o1, n % 5), (1, s2, o2, (n + 2) % 5)]))
+                    if pi < 2:
+                        out.append(History(name, [a, b], [(1, s1, o1, n % 5), (0, s2, o2, (n + 2) % 5)]))
+    # longer random histories (3-4 calls)
+    for _ in range(150 if quick else 1500):
+        if rng.random() < 0.6:
+            slots = [rng.choice(singles)]
+            name = 'single'
+        else:
+            name, a, b = rng.choice(HIST_PAIRS)
+            slots = [a, b]
+        calls = [(rng.randrange(len(slots)), rng.choice(statuses), rng.choice(HIST_OPTS), rng.randrange(5)) for _ in range(rng.choice((3, 4)))]
+        out.append(History(name, slots, calls))
+    return out
+
+
+def _run_histories(run, R, hists):
+    from malt.impl import api, conversion
+    ins = R.ins
+    reqs, recs = [], []
+    for h in hists:
+        ins.reset(False)
+        os.environ.pop('AUTOGRAPH_STRICT_CONVERSION', None)
+        slots = []
+        keyidx = {}
+        keep = []
+
+        def kid(obj):
+            keep.append(obj)
+            return keyidx.setdefault(id(obj), len(keyidx))
+        for (base, chain_ix) in h.slots:
+            c0 = Case(base, chain_ix, 0, False, True, True, 'unspecified', False)
+            log = []
+            b, f, flav, _, _ = R.build(c0, log)
+            levels, base_f = real_levels(f)
+            keys = [[kid(lv), kid(lv)] for lv in levels] + [[kid(base_f), kid(base_f.__func__ if inspect.ismethod(base_f) else base_f)]]
+            tlog = []
+            tb, tf, _, _, _ = R.build(c0, tlog)      # the twin receives the same history directly (callables may be stateful)
+            slots.append({'b': b, 'f': f, 'flav': flav, 'levels': levels, 'base_f': base_f, 'log': log, 'keys': keys, 'chain_ix': chain_ix, 'base': base,
+                          'tb': tb, 'tf': tf, 'tlog': tlog})
+        okeys = {}
+        calls_sx, obs_list = [], []
+        for (si, status, (ur, icu, rec), shape_ix) in h.calls:
+            sl = slots[si]
+            c = Case(sl['base'], sl['chain_ix'], shape_ix, ur, icu, rec, status, False)
+            opts = R.options(c)
+            okey = okeys.setdefault((rec, ur, icu), len(okeys))
+            # direct call on the slot's twin
+            tb, f_d = sl['tb'], sl['tf']
+            if tb.log is not None:
+                del tb.log[:]
+            del sl['tlog'][:]
+            bt2, _, _, args_d, kw_d = R.build(c, sl['tlog'])
+            if tb.needs_self is not None:
+                args_d = (tb.needs_self,) + tuple(args_d[1:])
+            if bt2.log is not None:
+                del bt2.log[:]
+            direct_out, direct_stdout, _ = invoke((lambda: f_d(*args_d)) if kw_d is None else (lambda: f_d(*args_d, **kw_d)), tb.result_kind)
+            direct_log = canon_log(R.the_log(tb, sl['tlog']))
+            # wrapped call on the persistent callable (fresh argument objects logging into the slot's log)
+            b = sl['b']
+            if b.log is not None:
+                del b.log[:]
+            del sl['log'][:]
+            b2, _, _, args, kw = R.build(c, sl['log'])
+            if b.needs_self is not None:
+                args = (b.needs_self,) + tuple(args[1:])
+            if b2.log is not None:
+                del b2.log[:]
+            n0 = ins.mark()
+            st = {'unspecified': R.ag_ctx.Status.UNSPECIFIED, 'enabled': R.ag_ctx.Status.ENABLED, 'disabled': R.ag_ctx.Status.DISABLED}[status]
+            with R.ag_ctx.ControlStatusCtx(st):
+                out, stdout, _ = invoke(lambda: api.converted_call(sl['f'], args, kw, options=opts), b.result_kind)
+            n1 = ins.mark()
+            wlog = list(R.the_log(b, sl['log']))
+            ents = ins.converted_entities[n0[0]:n1[0]]
+            att = sum(1 for e in ents if any(e is t or getattr(e, '__func__', None) is t or e is getattr(t, '__func__', None) for t in b.target_ents))
+            obs_list.append({'slot': si, 'status': status, 'opts': [ur, icu, rec], 'direct': direct_out, 'wrapped': out, 'direct_log': direct_log,
+                             'wrapped_log': canon_log(wlog), 'direct_stdout': direct_stdout, 'wrapped_stdout': stdout,
+                             'runs': len(conv_flags(wlog)), 'conv': conv_flags(wlog), 'attempts': att, 'warnings': n1[1] - n0[1], 'case': c})
+            margs = [R.val(a) for a in args]
+            if b.needs_self is not None:
+                margs[0] = 'SELFARG'
+            mkw = 'none' if kw is None else [[k, R.val(v)] for k, v in kw.items()]
+            calls_sx.append([si, [status, False, True], okey, [bool(opts.user_requested), bool(opts.internal_convert_user_code)], margs, mkw])
+        slots_sx = []
+        for sl in slots:
+            c0 = Case(sl['base'], sl['chain_ix'], 0, False, True, True, 'unspecified', False)
+            req = R.model_request(c0, sl['b'], sl['levels'], sl['flav'], (), None, None)
+            # the callable S-expression is the third argument of the c13.call request
+            callable_sx = parse_sexp('(' + req.split(' ', 1)[1] + ')')[2]
+            slots_sx.append(['slot', callable_sx] + sl['keys'])
+        reqs.append('c13.history %s %s' % (sexp(slots_sx), sexp(calls_sx)))
+        recs.append((h, slots, obs_list))
+    models = [None] * len(recs)
+    if run.driver_ok and reqs:
+        answers = run.drive(reqs)
+        for i, a in enumerate(answers):
+            if not a.startswith('('):
+                raise common.InfraError('driver rejected a history request: ' + reqs[i][:300])
+            sx = parse_sexp(a)
+            part = {x[0]: x[1:] for x in sx}
+            effs = []
+            for e in part['effects']:
+                effs.append({'invocations': int(e[1]), 'converted': e[4] == 'True', 'attempted': e[5] == 'True', 'warning': e[6] == 'True', 'raised': e[7] == 'True'})
+            models[i] = {'effects': effs, 'shared_disagree': part['class'][0] == 'True', 'foreign': part['class'][1] == 'True',
+                         'uncacheable': part['class'][2] == 'True'}
+    dis = []
+    stats = {'histories': len(recs), 'calls': 0, 'converted_after_disabled': 0, 'remembered_failure_skips': 0, 'shared_key_histories': 0}
+    for (h, slots, obs_list), m, req in zip(recs, models, reqs):
+        run.case(h.key(), True)
+        hj = h.to_json()
+        if len(set(tuple(sl['keys'][-1][1:]) for sl in slots)) < len(slots):
+            stats['shared_key_histories'] += 1
+        failed_keys = set()      # (cache key of the base, options) of genuine conversion failures that were remembered
+        prev_disabled = False
+        for i, ob in enumerate(obs_list):
+            stats['calls'] += 1
+            sl = slots[ob['slot']]
+            b, F, c = sl['b'], sl['b'].facts, ob['case']
+            excl = R.exclusions(c, b, sl['levels'], sl['flav'])
+            fkey = (sl['keys'][-1][1], tuple(ob['opts']))
+            due = not excl
+            fails = F['fail'] is not None
+            remembered = fkey in failed_keys
+            info = dict(hj, failing_call=i, observed=[{k: v for k, v in o.items() if k != 'case'} for o in obs_list[:i + 1]])
+            cls_t = None
+            if m:
+                cls_t = CLS_FOREIGN_SELF if m['foreign'] else (CLS_SHARED_OWNER if m['shared_disagree'] else None)
+            same = ob['wrapped'] == ob['direct'] or (ob['wrapped'][0] == 'exc' and ob['direct'][0] == 'exc' and ob['wrapped'][1] == ob['direct'][1])
+            if not same or ob['wrapped_log'] != ob['direct_log'] or ob['wrapped_stdout'] != ob['direct_stdout']:
+                run.fail('history: call %d differs from the direct call: %s vs %s' % (i, str(ob['wrapped'])[:100], str(ob['direct'])[:100]), info,
+                         CLS_FOREIGN_SELF if (m and m['foreign']) else None)
+            conv_seen = bool(ob['conv']) and all(ob['conv'])
+            if b.loggable and ob['runs'] >= 1 and not F['already_converted']:
+                want = due and not fails
+                if conv_seen != want:
+                    run.fail('history: call %d (context %s, options %s) %s converted but the policy for ITS context says it %s be (exclusions %s; earlier calls: %s)' %
+                             (i, ob['status'], ob['opts'], 'was' if conv_seen else 'was not', 'should' if want else 'should not', excl,
+                              [(o['slot'], o['status'], o['opts']) for o in obs_list[:i]]), info, cls_t)
+                if want and prev_disabled:
+                    stats['converted_after_disabled'] += 1
+            if not due and ob['attempts']:
+                run.fail('history: call %d attempted a conversion although excluded (%s)' % (i, excl), info, None)
+            if due and not fails and not ob['attempts'] and b.loggable:
+                run.fail('history: call %d did not attempt the due conversion (earlier calls: %s)' % (i, [(o['slot'], o['status'], o['opts']) for o in obs_list[:i]]),
+                         info, cls_t)
+            if due and fails:
+                if remembered:
+                    stats['remembered_failure_skips'] += 1
+                    if ob['attempts'] or ob['warnings']:
+                        run.fail('history: call %d re-attempted a conversion whose failure was remembered' % i, info, None)
+                else:
+                    if not ob['attempts'] or not ob['warnings']:
+                        run.fail('history: call %d: failing conversion not attempted / no warning although nothing was remembered for these options' % i, info, cls_t)
+                    if F['cacheable']:
+                        failed_keys.add(fkey)
+            prev_disabled = prev_disabled or ob['status'] == 'disabled'
+            if m:
+                e = m['effects'][i]
+                d = []
+                if b.loggable and ob['runs'] >= 1 and not F['already_converted'] and conv_seen != e['converted']:
+                    d.append('call %d converted: model %s, observed %s' % (i, e['converted'], conv_seen))
+                if bool(ob['attempts']) != e['attempted']:
+                    d.append('call %d attempted: model %s, observed %d' % (i, e['attempted'], ob['attempts']))
+                if bool(ob['warnings']) != e['warning']:
+                    d.append('call %d warning: model %s, observed %d' % (i, e['warning'], ob['warnings']))
+                if d:
+                    dis.append({'history': hj, 'request': req[:1200], 'disagreements': d})
+    run.cov['histories'] = stats
+    run.c13_hist_disagreements = dis
+    if run.driver_ok:
+        run.oblige('correspondence:c13.history', 'correspondence', not dis, json.dumps(dis[:3], default=str))
+    else:
+        run.oblige('correspondence:c13.history', 'correspondence', False, 'driver unavailable')
+    if recs:
+        h, slots, obs_list = recs[len(recs) // 3]
+        run.sample({'history': h.to_json(), 'observed': [{k: o[k] for k in ('slot', 'status', 'opts', 'conv', 'attempts', 'warnings')} for o in obs_list]}, cap=8)
+
+
 # ------------------------------------------------------------------------------------------------ special builtins
 
 def _specials(run, R):
@@ -1169,7 +1404,7 @@ def replay(run, path):
         rep = json.load(f)
     print(json.dumps({k: rep[k] for k in ('property', 'what', 'class') if k in rep}, indent=1))
     case = rep.get('case', {})
-    if 'base' not in case:
+    if 'base' not in case and not case.get('history'):
         check(run)
         return run.finish()
     run.rule = 'replay of one recorded case'
@@ -1185,7 +1420,10 @@ def replay(run, path):
                 for m in zoo.rule_test_modules(env.rule_prefixes):
                     if m not in sys.modules:
                         env.register_fake(m)
-                _run_cases(run, R, [Case.from_json(case)])
+                if case.get('history'):
+                    _run_histories(run, R, [History.from_json(case)])
+                else:
+                    _run_cases(run, R, [Case.from_json(case)])
             finally:
                 env.close()
     finally:
